@@ -38,6 +38,14 @@ pub const BASE64_URL_SAFE_ENGINE: base64::engine::GeneralPurpose =
 
 pub const HASH_BUFFER_SIZE: usize = 128 * 1024;
 
+#[cfg(sccache_verif)]
+thread_local! {
+    /// Verification hook: while this holds `Some`, every `Digest::update` made on this
+    /// thread also appends its input here (the pre-image of the digest being computed).
+    pub static VERIF_DIGEST_TRACE: std::cell::RefCell<Option<Vec<u8>>> =
+        const { std::cell::RefCell::new(None) };
+}
+
 #[derive(Clone)]
 pub struct Digest {
     inner: blake3_Hasher,
@@ -106,6 +114,12 @@ impl Digest {
     }
 
     pub fn update(&mut self, bytes: &[u8]) {
+        #[cfg(sccache_verif)]
+        VERIF_DIGEST_TRACE.with(|t| {
+            if let Some(trace) = t.borrow_mut().as_mut() {
+                trace.extend_from_slice(bytes);
+            }
+        });
         self.inner.update(bytes);
     }
 
